@@ -11,6 +11,7 @@ import (
 	"io"
 	"reflect"
 	"sync"
+	"sync/atomic"
 	"time"
 	"unsafe"
 )
@@ -24,7 +25,10 @@ func VerifPoolPut(pc *PrintCtx) { poolPrintCtx.Put(pc) }
 func VerifPoolsFresh() {
 	poolPrintCtx = sync.Pool{New: poolPrintCtx.New}
 	poolAttrs = sync.Pool{New: poolAttrs.New}
+	atomic.StoreInt32(&fixedSize, verifFixedSize0) // the warm-up size of the attribute slices, as at process start
 }
+
+var verifFixedSize0 = atomic.LoadInt32(&fixedSize)
 
 // VerifPoolAttrsPeek returns length and capacity of the slice the next logContext will get.
 func VerifPoolAttrsPeek() (int, int) {
